@@ -143,6 +143,8 @@ type Unit struct {
 	fnConstOrder  []Term
 	axiomFacts    []string
 	localCells    []localCell
+	callsiteErr   map[string]string
+	callsiteBound map[string]bool
 	prune         *pruneIndex
 	privateMemo   map[*ssa.Function]map[ssa.Value]bool
 	implOf        string
